@@ -42,7 +42,14 @@ def mkcell(rng, m, g, positive=False, scale=1.0):
         vals = np.abs(vals) + 0.5
     if rng.random() < 0.3:
         vals = np.round(vals)
-    return pf.CellVariable(m, vals.copy() * scale, BC)
+    if rng.random() < 0.5:
+        return pf.CellVariable(m, vals.copy() * scale, BC)
+    # the other way of getting the same variable: default boundary conditions edited afterwards, then brought to a clean state
+    # (apply_BCs(), as after any solve) - its boundary conditions are its own just the same
+    v = pf.CellVariable(m, vals.copy() * scale)
+    gen.apply_bc_spec(v.BCs, g, spec)
+    v.apply_BCs()
+    return v
 
 
 def snapshot_cell(v):
